@@ -275,13 +275,6 @@ func genRealIP(c *ctx) *leanFile {
 	l.boolean("emptyFallsBackToDefault", len(missing) == 0, len(missing) == 0,
 		"`if !X.Empty() {…} else { X = <default> }` not found at: "+strings.Join(missing, ", "))
 
-	// ---------------------------------------------------------------- parseIPNet: one configured entry
-	//   if strings.ContainsRune(s, '/') { … net.ParseCIDR(s) … } else {
-	//       ip := net.ParseIP(s); …; ipnet = &net.IPNet{IP: ip, Mask: net.CIDRMask(len(ip)*8, len(ip)*8)} }
-	slashSelects, hostFull := parseIPNetShape(aips)
-	l.boolean("slashSelectsCidr", slashSelects, fdFound(aips, "", "parseIPNet"), "func parseIPNet not found in allowed_ips.go")
-	l.boolean("hostEntryFullMask", hostFull, fdFound(aips, "", "parseIPNet"), "func parseIPNet not found in allowed_ips.go")
-
 	// ---------------------------------------------------------------- gated endpoints
 	gMain, oMain, okMain := routes(bs, "BackendServer", "Start")
 	l.strList("gatedRoutesMain", gMain, okMain, "(*BackendServer).Start: no HandleFunc(\"/path\", …) registrations found")
@@ -390,120 +383,6 @@ func goFiles(repo, dir string) ([]string, error) {
 	}
 	sort.Strings(out)
 	return out, nil
-}
-
-// parseIPNetShape looks at the one statement that decides how a configured entry is read.
-// slashSelects: the function's only branching on the text is `if strings.ContainsRune(s, '/')`, whose
-// then-branch parses with net.ParseCIDR(s) only and whose else-branch never does.
-// hostFull: the else-branch parses with `X := net.ParseIP(s)` and builds
-// `net.IPNet{IP: X, Mask: net.CIDRMask(len(X)*8, len(X)*8)}`, and the parameter is not reassigned anywhere.
-func parseIPNetShape(f *ast.File) (slashSelects, hostFull bool) {
-	fd := findFunc(f, "", "parseIPNet")
-	if fd == nil || fd.Body == nil || fd.Type.Params == nil || len(fd.Type.Params.List) != 1 || len(fd.Type.Params.List[0].Names) != 1 {
-		return false, false
-	}
-	param := fd.Type.Params.List[0].Names[0].Name
-	var top *ast.IfStmt
-	nIf := 0
-	for _, st := range fd.Body.List {
-		if is, ok := st.(*ast.IfStmt); ok {
-			nIf++
-			top = is
-		}
-	}
-	if nIf != 1 || top.Init != nil {
-		return false, false
-	}
-	call, ok := top.Cond.(*ast.CallExpr)
-	if !ok || !isSel(call.Fun, "strings", "ContainsRune") || len(call.Args) != 2 || !isIdent(call.Args[0], param) {
-		return false, false
-	}
-	if bl, ok := call.Args[1].(*ast.BasicLit); !ok || bl.Kind != token.CHAR || bl.Value != "'/'" {
-		return false, false
-	}
-	elseBlock, ok := top.Else.(*ast.BlockStmt)
-	if !ok {
-		return false, false
-	}
-	// the text is handed to the parsers as it came in
-	reassigned := false
-	ast.Inspect(fd.Body, func(nd ast.Node) bool {
-		if as, ok := nd.(*ast.AssignStmt); ok {
-			for _, lhs := range as.Lhs {
-				if isIdent(lhs, param) {
-					reassigned = true
-				}
-			}
-		}
-		return true
-	})
-	count := func(b *ast.BlockStmt, fn string) (n int, onParam bool) {
-		onParam = true
-		ast.Inspect(b, func(nd ast.Node) bool {
-			if c, ok := nd.(*ast.CallExpr); ok && isSel(c.Fun, "net", fn) {
-				n++
-				if len(c.Args) != 1 || !isIdent(c.Args[0], param) {
-					onParam = false
-				}
-			}
-			return true
-		})
-		return
-	}
-	tc, tcOk := count(top.Body, "ParseCIDR")
-	ti, _ := count(top.Body, "ParseIP")
-	ec, _ := count(elseBlock, "ParseCIDR")
-	ei, eiOk := count(elseBlock, "ParseIP")
-	slashSelects = !reassigned && tc == 1 && tcOk && ti == 0 && ec == 0
-	// X := net.ParseIP(s)
-	ipVar := ""
-	for _, st := range elseBlock.List {
-		if as, ok := st.(*ast.AssignStmt); ok && as.Tok == token.DEFINE && len(as.Lhs) == 1 && len(as.Rhs) == 1 {
-			if c, ok := as.Rhs[0].(*ast.CallExpr); ok && isSel(c.Fun, "net", "ParseIP") {
-				if id, ok := as.Lhs[0].(*ast.Ident); ok {
-					ipVar = id.Name
-				}
-			}
-		}
-	}
-	isLenTimes8 := func(e ast.Expr) bool {
-		be, ok := e.(*ast.BinaryExpr)
-		if !ok || be.Op != token.MUL {
-			return false
-		}
-		c, ok := be.X.(*ast.CallExpr)
-		if !ok || !isIdent(c.Fun, "len") || len(c.Args) != 1 || !isIdent(c.Args[0], ipVar) {
-			return false
-		}
-		bl, ok := be.Y.(*ast.BasicLit)
-		return ok && bl.Kind == token.INT && bl.Value == "8"
-	}
-	nLit, litOk := 0, false
-	ast.Inspect(elseBlock, func(nd ast.Node) bool {
-		cl, ok := nd.(*ast.CompositeLit)
-		if !ok || !isSel(cl.Type, "net", "IPNet") {
-			return true
-		}
-		nLit++
-		ipOk, maskOk := false, false
-		for _, el := range cl.Elts {
-			kv, ok := el.(*ast.KeyValueExpr)
-			if !ok {
-				continue
-			}
-			if isIdent(kv.Key, "IP") && isIdent(kv.Value, ipVar) {
-				ipOk = true
-			}
-			if c, ok := kv.Value.(*ast.CallExpr); ok && isIdent(kv.Key, "Mask") && isSel(c.Fun, "net", "CIDRMask") &&
-				len(c.Args) == 2 && isLenTimes8(c.Args[0]) && isLenTimes8(c.Args[1]) {
-				maskOk = true
-			}
-		}
-		litOk = ipOk && maskOk && len(cl.Elts) == 2
-		return true
-	})
-	hostFull = !reassigned && ipVar != "" && ei == 1 && eiOk && nLit == 1 && litOk
-	return
 }
 
 func fdFound(f *ast.File, recv, name string) bool { return findFunc(f, recv, name) != nil }
